@@ -225,10 +225,12 @@ def simplify(st, form):
 
 
 class ZoneFlow(object):
-    def __init__(self, f, bitmaps, in_helper):
+    def __init__(self, f, bitmaps, in_helper, specs=None, resizers=None):
         self.f = f
         self.bitmaps = bitmaps      # lvalue keys of bitmap pointers
         self.in_helper = in_helper
+        self.specs = specs or {}    # generic arrays: (record, array field) -> count field
+        self.resizers = resizers or {}   # (record, count field) -> names of functions that may assign it (transitively)
         self.obl = {}               # node id -> (ok, text)
         self.inb = {}
 
@@ -398,10 +400,15 @@ class ZoneFlow(object):
         k = n["k"]
         if k == "Sub":
             base = strip(n["c"][0])
-            if base is not None and base["k"] == "Member" and base["f"] == "ulongs" and base.get("rec") == "hwloc_bitmap_s":
+            if base is not None and base["k"] == "Member" and base["f"] == "ulongs" and base.get("rec") == "hwloc_bitmap_s" and not self.specs:
                 X = lv(base["c"][0])
                 if X is not None and record:
                     self.check(ds, n, X)
+            elif base is not None and base["k"] == "Member" and (base.get("rec"), base["f"]) in self.specs and record:
+                O = lv(base["c"][0])
+                if O is not None:
+                    cnt = O + ("->" if base.get("arrow") else ".") + self.specs[(base["rec"], base["f"])]
+                    self.check(ds, n, None, cnt=cnt)
             return ds
         if k == "DeclStmt":
             out = []
@@ -493,6 +500,17 @@ class ZoneFlow(object):
                         s.add(X + "->ulongs_count", X + "->ulongs_allocated", 0)
                     out.append(s)
                 return self.norm(out)
+            # generic arrays: a callee that may assign a count field invalidates every term ending in that field
+            if self.resizers:
+                drop = [cf for (rec, cf), names in self.resizers.items() if fn is None or fn in names]
+                if drop:
+                    out = []
+                    for d in ds:
+                        s = d.copy()
+                        for k2 in [k2 for k2 in s.d if any(k2[0].endswith(">" + cf) or k2[0].endswith("." + cf) or k2[1].endswith(">" + cf) or k2[1].endswith("." + cf) for cf in drop)]:
+                            del s.d[k2]
+                        out.append(s)
+                    ds = self.norm(out)
             # address-taken locals
             out = None
             for a2 in args(n):
@@ -545,11 +563,14 @@ class ZoneFlow(object):
         s.assign(key, tc[0], tc[1])
         return [s]
 
-    def check(self, ds, n, X):
+    def check(self, ds, n, X, cnt=None):
         f = self.f
         idx = n["c"][1]
         form = lin(f, idx)
-        cnt, alc = X + "->ulongs_count", X + "->ulongs_allocated"
+        if cnt is None:
+            cnt, alc = X + "->ulongs_count", X + "->ulongs_allocated"
+        else:
+            alc = "<none>"
         par = f.par(n)
         is_write = False
         p, child = par, n
@@ -760,3 +781,102 @@ def run(chk, P, unit="bitmap.c", rule="R-WORDIDX", min_funcs=10):
                 chk.inst(rule, f, "%s#%d" % (text.replace(" ", ""), k), ok, why if ok else "%s: %s" % (text, why), loc=loc)
     chk.notes.append("%s: frozen out of scope: %s" % (rule, "; ".join(outscope)))
     return n_ok, n_funcs, outscope
+
+
+GENERIC = {("hwloc_infos_s", "array"): "count", ("hwloc_topology", "memattrs"): "nr_memattrs", ("hwloc_topology", "cpukinds"): "nr_cpukinds",
+           ("hwloc_obj", "children"): "arity", ("hwloc_internal_memattr_s", "targets"): "nr_targets",
+           ("hwloc_internal_memattr_target_s", "initiators"): "nr_initiators", ("hwloc_numanode_attr_s", "page_types"): "page_types_len",
+           ("hwloc_linux_cpukinds", "sets"): "nr_sets", ("hwloc_cpukinds_info_summary", "summaries"): "nr"}
+
+
+def field_resizers(P, specs):
+    """(record, count field) -> functions that may assign it, transitively over direct calls (indirect calls: everything)"""
+    funcs = {}
+    for f in P.all_funcs(only_main=False):
+        funcs.setdefault(f.name, f)
+    direct = {}
+    calls = {}
+    for name, f in funcs.items():
+        if f.entry is None:
+            continue
+        cs = set()
+        for n in f.walk():
+            a = assigned(n)
+            if a:
+                t = strip(a[0])
+                if t["k"] == "Member":
+                    direct.setdefault((t.get("rec"), t["f"]), set()).add(name)
+            if n["k"] == "Call":
+                cs.add(n.get("fn"))
+        calls[name] = cs
+    out = {}
+    for (rec, af), cf in specs.items():
+        r = set(direct.get((rec, cf), ()))
+        changed = True
+        while changed:
+            changed = False
+            for name, cs in calls.items():
+                if name not in r and (cs & r or None in cs):
+                    r.add(name)
+                    changed = True
+        out[(rec, cf)] = r
+    return out
+
+
+def run_generic(chk, P, rule="R-ARRIDX", specs=None, frozen=None):
+    specs = specs or GENERIC
+    frozen = frozen or {}
+    rz = field_resizers(P, specs)
+    n_ok = 0
+    outscope = []
+    for f in P.all_funcs():
+        if f.entry is None:
+            continue
+        has = any(n["k"] == "Sub" and strip(n["c"][0]) is not None and strip(n["c"][0])["k"] == "Member" and (strip(n["c"][0]).get("rec"), strip(n["c"][0])["f"]) in specs for n in f.walk())
+        if not has:
+            continue
+        try:
+            z = ZoneFlow(f, set(), False, specs=specs, resizers=rz).run()
+        except AnalysisBroken as e:
+            outscope.append((f.name, 0, 0, str(e)))
+            continue
+        bad = [v for v in z.obl.values() if not v[0]]
+        if z.obl and not bad:
+            k = 0
+            for nid, (ok, why, loc, text) in sorted(z.obl.items(), key=lambda kv: kv[1][2]):
+                k += 1
+                n_ok += 1
+                chk.inst(rule, f, "%s#%d" % (text.replace(" ", ""), k), True, why, loc=loc)
+        elif f.name in frozen:
+            chk.inst(rule, f, "out-of-scope", True, "frozen: %s" % frozen[f.name], nontrivial=False, info=True)
+            outscope.append((f.name, len(bad), len(z.obl), "frozen"))
+        else:
+            outscope.append((f.name, len(bad), len(z.obl), "%s: %s" % (bad[0][3], bad[0][1]) if bad else "no access reached"))
+            k = 0
+            for nid, (ok, why, loc, text) in sorted(z.obl.items(), key=lambda kv: kv[1][2]):
+                k += 1
+                chk.inst(rule, f, "%s#%d" % (text.replace(" ", ""), k), ok, why if ok else "%s: %s" % (text, why), loc=loc)
+    return n_ok, outscope
+
+
+FROZEN_GENERIC = {
+    "hwloc__tma_dup_infos": "the source array is indexed under the loop bound of the same source (oldi->count) but the copy is filled before its count is set: sibling arrays of equal length",
+    "hwloc__duplicate_object": "children[0] / children[i] of the copy are filled before connect; arity was copied from the source",
+    "hwloc_filter_levels_keep_structure": "children[rank +/- 1] of the parent: rank is the child's sibling_rank < arity (tree invariant C01)",
+    "hwloc_connect_children": "children[n] is written while counting; the array was allocated for the counted arity just above",
+    "hwloc__check_normal_children": "children[0] under `arity` non-zero established by an early return on !arity",
+    "hwloc__get_largest_objs_inside_cpuset": "children[i] in a loop bounded by the same object's arity read through another pointer",
+    "hwloc_internal_memattrs_prepare": "constant attribute ids index an array allocated for HWLOC_MEMATTR_ID_MAX entries in this function",
+    "hwloc_internal_memattrs_dup": "the copy's targets/initiators are filled under the source's counts (copied just above)",
+    "hwloc__group_memory_tiers": "constant attribute ids (< HWLOC_MEMATTR_ID_MAX <= nr_memattrs, invariant established by prepare)",
+    "hwloc_internal_cpukinds_dup": "source array indexed under the source's own count through `old`, copy filled under the same bound",
+    "hwloc_internal_cpukinds_restrict": "the slot AT nr_cpukinds is zeroed on purpose (fix ae9b742): a write inside the allocation",
+    "hwloc__cpukinds_summarize_info": "summaries[] has one entry per kind (nr == nr_cpukinds by construction in the caller)",
+    "hwloc__cpukinds_try_rank_by_info": "same summaries[]/nr_cpukinds correspondence",
+    "hwloc_topology_diff_build": "two topologies walked in lock step: the second one's arrays are indexed under the first one's counts after the counts were compared equal",
+    "hwloc__xml_export_object_contents": "page_types[i] under page_types_len read into a local before the loop through another expression",
+    "hwloc_parse_hugepages_info": "page_types[index_] with index_ counted against the allocation made by the caller (sized from the directory listing)",
+    "hwloc_get_machine_meminfo": "page_types[0]/[1] right after allocating 1 or 2 entries (page_types_len set just above)",
+    "hwloc_get_sysfs_node_meminfo": "same as hwloc_get_machine_meminfo",
+    "hwloc_linux_cpukinds_add": "append: sets[nr_sets] is written after the array was grown when nr_sets == nr_sets_allocated",
+}
